@@ -280,6 +280,10 @@ def load_known():
 
 def write_evidence(pid, tier, seed, coverage, wall, violations, assumptions, level='model_checking'):
     os.makedirs(os.path.join(VERIF, 'evidence'), exist_ok=True)
+    try:
+        coverage = dict(coverage, binding_selftest=json.load(open(os.path.join(OUT, 'selftest.json'))))
+    except (OSError, ValueError):
+        coverage = dict(coverage, binding_selftest='not run in this sandbox yet (bin/setup runs it)')
     ev = dict(property_id=pid, tier=tier, seed=seed, level=level, coverage=coverage, assumptions=assumptions,
               wall_s=round(wall, 2), violations=violations)
     tmp = os.path.join(VERIF, 'evidence', pid + '.json.tmp')
